@@ -28,7 +28,7 @@ func (r *Reshape) Init(*onnx.NodeProto) error {
 func (r *Reshape) Apply(inputs []tensor.Tensor) ([]tensor.Tensor, error) {
 	t := inputs[0]
 
-	newShape, err := ops.AnyToIntSlice(ops.IfScalarToSlice(inputs[1].Data().([]int64)))
+	newShape, err := ops.AnyToIntSlice(ops.IfScalarToSlice(inputs[1].Data()))
 	if err != nil {
 		return nil, err
 	}
@@ -76,6 +76,10 @@ func (r *Reshape) String() string {
 
 func processShape(newShape, currentShape []int) error {
 	for i := 0; i < len(newShape); i++ {
+		if newShape[i] < -1 {
+			return ops.ErrDimension("dim size must be -1, 0 or positive")
+		}
+
 		if newShape[i] == 0 {
 			if i >= len(currentShape) {
 				return ops.ErrDimension("could not infer dim size")
